@@ -105,6 +105,28 @@ func fixedPoint[T any](k *K, format string, rec T, key func(T) string, write fun
 func decodeTotal(k *K, format string, x []byte) {
 	limit := len(x) + 2
 	n := 0
+	// accepted in-domain records: marshalled together at the end (results held), joined and read back as one stream
+	var accKeys []string
+	var accMarshal []func() ([]byte, error)
+	defer func() {
+		if len(accKeys) < 2 || k.Failed() {
+			return
+		}
+		held := make([][]byte, len(accMarshal))
+		for i, m := range accMarshal {
+			held[i], _ = m()
+		}
+		joined := bytes.Join(held, nil)
+		got, over := collect(codecByName(format).seq(bytes.NewReader(joined)), len(accKeys)+3)
+		want := make([]item, len(accKeys))
+		for i, key := range accKeys {
+			want[i] = item{Key: key}
+		}
+		if over || !sameTrace(got, want) {
+			k.Failf("fixed-point-stream", "%s: the %d accepted records, each marshalled with MarshalText (results held, then joined), read back as\n got  %s\n want %s", format, len(accKeys), traceString(got), traceString(want))
+		}
+		k.Count("fixed_point_streams", 1)
+	}()
 	tooMany := func() bool {
 		n++
 		if n > limit {
@@ -130,6 +152,7 @@ func decodeTotal(k *K, format string, x []byte) {
 			k.Count("accepted_fasta", 1)
 			if fastaInDomain(rec) {
 				fixedPoint(k, "fasta", rec, fastaKey, (*fasta.Fasta).Write, fasta.Reader)
+				accKeys, accMarshal = append(accKeys, fastaKey(rec)), append(accMarshal, rec.MarshalText)
 			}
 		}
 	case "fastq":
@@ -148,6 +171,7 @@ func decodeTotal(k *K, format string, x []byte) {
 			k.Count("accepted_fastq", 1)
 			if fastqInDomain(rec) {
 				fixedPoint(k, "fastq", rec, fastqKey, (*fastq.Fastq).Write, fastq.Reader)
+				accKeys, accMarshal = append(accKeys, fastqKey(rec)), append(accMarshal, rec.MarshalText)
 			}
 		}
 	case "sam":
@@ -170,6 +194,7 @@ func decodeTotal(k *K, format string, x []byte) {
 			k.Count("accepted_sam", 1)
 			if samInDomain(sh.S) {
 				fixedPoint(k, "sam", sh.S, samKey, (*sam.SAM).Write, sam.Reader)
+				accKeys, accMarshal = append(accKeys, samKey(sh.S)), append(accMarshal, sh.S.MarshalText)
 			}
 		}
 	case "bed":
@@ -188,6 +213,7 @@ func decodeTotal(k *K, format string, x []byte) {
 			k.Count("accepted_bed", 1)
 			if bedInDomain(rec) {
 				fixedPoint(k, "bed", rec, bedKey, (*bed.BED).Write, bed.Reader)
+				accKeys, accMarshal = append(accKeys, bedKey(rec)), append(accMarshal, rec.MarshalText)
 			}
 		}
 	case "newick":
@@ -206,6 +232,7 @@ func decodeTotal(k *K, format string, x []byte) {
 			k.Count("accepted_newick", 1)
 			if treeInDomain(rec) {
 				fixedPoint(k, "newick", rec, treeKey, (*newick.Node).Write, newick.Reader)
+				accKeys, accMarshal = append(accKeys, treeKey(rec)), append(accMarshal, rec.MarshalText)
 			}
 		}
 	case "ncbi":
